@@ -67,13 +67,16 @@ static const double DICT[] = {0.0, 1.0, -1.0, 0.5, -0.5, 0.25, 2.0, -2.0, 0.1, -
                               1.5, -1.25, 3.0, 0.001, -0.75, 0.333251953125, 1.0e-2, 0.875,
                               -0.0625, 1.25, -1.5, 0.6, 0.05};
 static const int NDICT = sizeof(DICT) / sizeof(DICT[0]);
+// magnitude family: all entries are multiplied by a power of two (exact); byte 0 = 1 so that
+// short inputs and the hand-written seeds keep their meaning
+static const int SCALE_EXP[8] = {0, -27, -17, -7, 0, 7, 13, -40};
 
 struct Stats {
     uint64_t inputs = 0, executed = 0, nontrivial = 0;
     uint64_t per_kernel[5][2] = {{0}};
     uint64_t skipped_perm_ovf = 0, skipped_lap_ovf = 0, skipped_tor_d2 = 0, skipped_ltor_d2 = 0,
              skipped_kernel = 0, skipped_overflow_f32 = 0, out_of_domain = 0, hwc_ge1 = 0;
-    uint64_t mult_ge17 = 0, total_ge20 = 0, mult_gt1 = 0;
+    uint64_t mult_ge17 = 0, total_ge20 = 0, mult_gt1 = 0, small_norm = 0, range_skipped = 0;
     std::unordered_set<uint64_t> hashes;
 };
 static Stats g_stats;
@@ -95,10 +98,11 @@ static void write_stats(bool with_hashes = true) {
     fprintf(f, "skip:perm_ovf %" PRIu64 "\nskip:lap_ovf %" PRIu64 "\nskip:tor_d2 %" PRIu64
                "\nskip:ltor_d2 %" PRIu64 "\nskip:kernel %" PRIu64 "\nf32_overflow_skipped %" PRIu64
                "\nout_of_domain %" PRIu64 "\nmult_ge17 %" PRIu64 "\ntotal_ge20 %" PRIu64
-               "\nmult_gt1 %" PRIu64 "\n",
+               "\nmult_gt1 %" PRIu64 "\nsmall_norm %" PRIu64 "\nrange_skipped %" PRIu64 "\n",
             g_stats.skipped_perm_ovf, g_stats.skipped_lap_ovf, g_stats.skipped_tor_d2,
             g_stats.skipped_ltor_d2, g_stats.skipped_kernel, g_stats.skipped_overflow_f32,
-            g_stats.out_of_domain, g_stats.mult_ge17, g_stats.total_ge20, g_stats.mult_gt1);
+            g_stats.out_of_domain, g_stats.mult_ge17, g_stats.total_ge20, g_stats.mult_gt1,
+            g_stats.small_norm, g_stats.range_skipped);
     size_t n = 0;
     if (with_hashes)
     for (uint64_t h : g_stats.hashes) {
@@ -185,6 +189,7 @@ static void run_perm(bool laplace, const std::vector<int> &rows, const std::vect
         ld mx = 0;
         ld S = ref::glynn_abs_sum(A, rows, cols, &mx);
         if (sizeof(T) == 4 && (mx > 1e30L || S < 1e-25L)) { g_stats.skipped_overflow_f32++; return; }
+        if (mx > 1e280L || S < 1e-280L) { g_stats.range_skipped++; return; }
         cld want = ref::permanent(A, rows, cols);
         std::vector<std::complex<T>> out;
         call(out);
@@ -204,6 +209,7 @@ static void run_perm(bool laplace, const std::vector<int> &rows, const std::vect
         ld mx = 0;
         Ss[l] = ref::glynn_abs_sum(A, rows, c2, &mx);
         if (sizeof(T) == 4 && (mx > 1e30L || Ss[l] < 1e-25L)) { g_stats.skipped_overflow_f32++; return; }
+        if (mx > 1e280L || Ss[l] < 1e-280L) { g_stats.range_skipped++; return; }
         wants[l] = ref::permanent(A, rows, c2);
     }
     std::vector<std::complex<T>> out;
@@ -261,6 +267,7 @@ static void run_pf(const ref::Mat &Ain, const std::string &desc) {
         for (int j = 0; j < n; j++) A[i][j] = (ld)(T)Ain[i][j];
     const ld u = sizeof(T) == 4 ? std::ldexp(1.0L, -24) : std::ldexp(1.0L, -53);
     ld want = ref::pfaffian(A), S = ref::pfaffian(A, true);
+    if (sizeof(T) == 4 && n >= 2 && S > 0 && (S < 1e-28L || S > 1e30L)) { g_stats.range_skipped++; return; }
     Matrix<T> M(n, n);
     for (int i = 0; i < n; i++)
         for (int j = 0; j < n; j++) M(i, j) = (T)A[i][j];
@@ -318,6 +325,9 @@ extern "C" int LLVMFuzzerTestOneInput(const uint8_t *data, size_t size) {
                 double re = dict(), im = real_only ? 0.0 : dict();
                 A[i][j] = cld(re, im);
             }
+        int sexp = SCALE_EXP[fdp.ConsumeIntegralInRange<int>(0, 7)];
+        for (auto &row : A) for (auto &z : row) z = cld(std::ldexp(z.real(), sexp), std::ldexp(z.imag(), sexp));
+        desc += " scale=2^" + std::to_string(sexp);
         desc += " rows=[";
         for (int r : rows) desc += std::to_string(r) + ",";
         desc += "] cols=[";
@@ -340,6 +350,7 @@ extern "C" int LLVMFuzzerTestOneInput(const uint8_t *data, size_t size) {
         int mx = 0;
         for (int r : rows) mx = std::max(mx, r);
         if (mx >= 17) g_stats.mult_ge17++;
+        if (sexp <= -17) g_stats.small_norm++;
         if (mx > 1) g_stats.mult_gt1++;
         if (tot >= 20) g_stats.total_ge20++;
         uint64_t before = g_stats.nontrivial;
@@ -402,7 +413,11 @@ extern "C" int LLVMFuzzerTestOneInput(const uint8_t *data, size_t size) {
                 A[i][j] = v;
                 A[j][i] = -v;
             }
-        desc += " n=" + std::to_string(n);
+        int sexp = SCALE_EXP[fdp.ConsumeIntegralInRange<int>(0, 7)];
+        if (f32 && (sexp < -17 || sexp > 7)) sexp = sexp < 0 ? -17 : 7;   // float32 exponent range, n <= 12
+        for (auto &row : A) for (ld &z : row) z = std::ldexp(z, sexp);
+        if (sexp <= -17) g_stats.small_norm++;
+        desc += " n=" + std::to_string(n) + " scale=2^" + std::to_string(sexp);
         if (g_describe) {
             fprintf(stderr, "C04-DESC %s A=", desc.c_str());
             for (auto &row : A) for (ld z : row) fprintf(stderr, "%.17Lg ", z);
